@@ -2,425 +2,9 @@
 // C20: every option combination is either rejected cleanly or runs without UB; statistics are well defined.
 //   part=api: SolverCfg with the full (also invalid) value ranges + grid_file (0 none, 1 coarsenable, 2 non-coarsenable)
 //   part=cli: argv=<tokens separated by \x1f>
-#include "engine.h"
-#include "indep.h"
-#include <fstream>
-#include <sys/wait.h>
-#include <fcntl.h>
-#include <new>
-
-// ------------------------------------------------------------------------------------------------- API part
-static void __attribute__((noinline)) scribbleStack(unsigned char pattern)
-{
-    volatile unsigned char buf[96 * 1024];
-    for (size_t i = 0; i < sizeof buf; i++)
-        buf[i] = pattern;
-    asm volatile("" ::: "memory");
-}
-
-struct RunResult {
-    bool threw = false;
-    std::string what;
-    int its = -1;
-    double rho = 0;
-    bool hasErr = false;
-    double e2 = 0, einf = 0;
-    bool finite = true;
-    std::vector<double> resNorms;
-    Vector<double> sol;
-    int nr = 0, nt = 0;
-};
-
-// the object lives in storage pre-filled with `pattern`, the stack below the calls is pre-filled with it too:
-// any statistic that depends on an uninitialised member or local differs between two patterns
-static RunResult runApi(const SolverCfg& cfg, int gridFile, const std::string& fr, const std::string& ft, unsigned char pattern)
-{
-    RunResult r;
-    void* raw = ::operator new(sizeof(GMGPolar));
-    std::memset(raw, pattern, sizeof(GMGPolar));
-    GMGPolar* s = nullptr;
-    try {
-        scribbleStack(pattern);
-        s = new (raw) GMGPolar();
-    }
-    catch (const std::exception& e) {
-        ::operator delete(raw);
-        r.threw = true;
-        r.what  = e.what();
-        return r;
-    }
-    try {
-        cfg.select(*s);
-        cfg.applyOptions(*s);
-        if (gridFile) {
-            s->load_grid_file(true);
-            s->file_grid_radii(fr);
-            s->file_grid_angles(ft);
-        }
-        scribbleStack(pattern);
-        s->setup();
-        scribbleStack(pattern);
-        s->solve();
-        r.its = s->numberOfIterations();
-        // the factor is documented for a solve that iterated; with zero iterations nothing was reduced
-        if (r.its > 0)
-            r.rho = s->meanResidualReductionFactor();
-        if (r.its >= 1 || cfg.max_its >= 1) {
-            // at least one pass of the iteration loop happened (documented use of exactError*)
-            if (cfg.max_its >= 1) {
-                auto a = s->exactErrorWeightedEuclidean();
-                auto b = s->exactErrorInfinity();
-                if (a.has_value() && b.has_value()) {
-                    r.hasErr = true;
-                    r.e2     = *a;
-                    r.einf   = *b;
-                }
-            }
-        }
-        r.sol = s->solution();
-        r.nr  = s->grid().nr();
-        r.nt  = s->grid().ntheta();
-        for (int i = 0; i < r.sol.size(); i++)
-            if (!std::isfinite(r.sol[i]))
-                r.finite = false;
-        r.resNorms = GMGPolarVerifAccess::residualNorms(*s);
-    }
-    catch (const std::exception& e) {
-        r.threw = true;
-        r.what  = e.what();
-    }
-    s->~GMGPolar();
-    ::operator delete(raw);
-    return r;
-}
-
-static std::string tmpBase()
-{
-    const char* t = getenv("TMPDIR");
-    return std::string(t ? t : "/tmp") + "/verif_c20_" + std::to_string((long)getpid());
-}
-
-static Outcome runApiCase(const KV& c)
-{
-    Outcome o;
-    SolverCfg cfg      = SolverCfg::get(c);
-    const int gridFile = (int)c.getI("grid_file", 0);
-    o.cls("part_api");
-    std::string fr = tmpBase() + "_r.txt", ft = tmpBase() + "_t.txt";
-    if (gridFile) {
-        // a grid from files: coarsenable (nr odd, ntheta%4==0) or not
-        const int nr = gridFile == 1 ? 9 : 8, nt = gridFile == 1 ? 16 : 6;
-        std::ofstream a(fr), b(ft);
-        a.precision(18);
-        b.precision(18);
-        for (int i = 0; i < nr; i++)
-            a << std::fixed << cfg.R0 + (cfg.Rmax - cfg.R0) * i / (nr - 1) << "\n";
-        for (int j = 0; j <= nt; j++)
-            b << std::fixed << (j == nt ? 2 * M_PI : 2 * M_PI * j / nt) << "\n";
-    }
-    RunResult r1 = runApi(cfg, gridFile, fr, ft, 0x5a);
-    RunResult r2 = runApi(cfg, gridFile, fr, ft, 0xc3);
-    if (gridFile) {
-        std::remove(fr.c_str());
-        std::remove(ft.c_str());
-    }
-    const bool invalidEnum = cfg.cycle < 0 || cfg.cycle > 2 || cfg.fmg_cycle < 0 || cfg.fmg_cycle > 2 || cfg.extrapolation < 0 ||
-                             cfg.extrapolation > 3 || cfg.norm < 0 || cfg.norm > 2 || cfg.strategy < 0 || cfg.strategy > 1;
-    const bool tolOn = cfg.abs_tol > 0 || cfg.rel_tol > 0;
-    o.signature  = "A" + cfg.sig() + "f" + std::to_string(gridFile);
-    o.nontrivial = true;
-    if (invalidEnum)
-        o.cls("invalid_enum_value");
-    if (!tolOn)
-        o.cls("both_tolerances_disabled");
-    if (cfg.pre == 0 && cfg.post == 0)
-        o.cls("zero_smoothing");
-    if (cfg.strategy == 0 && (!cfg.cache_coef || !cfg.cache_geom))
-        o.cls("take_without_caches");
-    if (r1.threw != r2.threw) {
-        o.fail("nondeterministic_rejection", "the same configuration is rejected in one run and accepted in the other");
-        return o;
-    }
-    if (r1.threw) {
-        o.cls("rejected_by_exception");
-        return o;
-    }
-    o.cls("ran_to_completion");
-    // must-reject combinations
-    if (cfg.strategy == 0 && (!cfg.cache_coef || !cfg.cache_geom)) {
-        o.fail("not_rejected", "the take strategy without both caches was not rejected");
-        return o;
-    }
-    if (gridFile == 2) {
-        o.fail("not_rejected", "a non-coarsenable grid was not rejected");
-        return o;
-    }
-    if (r1.its < 0 || r1.its > std::max(cfg.max_its, 0)) {
-        o.fail("iterations_range", "numberOfIterations() = " + std::to_string(r1.its) + " outside [0, maxIterations=" + std::to_string(cfg.max_its) + "]");
-        return o;
-    }
-    if (!tolOn && !invalidEnum && r1.its != std::max(cfg.max_its, 0)) {
-        o.fail("iterations_disabled_tolerances", "with both tolerances disabled the solver performed " + std::to_string(r1.its) + " of " +
-                                                     std::to_string(cfg.max_its) + " iterations");
-        return o;
-    }
-    // statistics are a deterministic function of the solve: identical for both memory patterns
-    if (r1.its != r2.its || std::memcmp(&r1.rho, &r2.rho, 8) != 0 || r1.hasErr != r2.hasErr ||
-        (r1.hasErr && (std::memcmp(&r1.e2, &r2.e2, 8) != 0 || std::memcmp(&r1.einf, &r2.einf, 8) != 0))) {
-        char buf[300];
-        snprintf(buf, sizeof buf, "statistics depend on uninitialised memory: iterations %d/%d, mean reduction factor %.17g/%.17g, errors (%.6g,%.6g)/(%.6g,%.6g)",
-                 r1.its, r2.its, r1.rho, r2.rho, r1.e2, r1.einf, r2.e2, r2.einf);
-        o.fail("statistics_uninitialised", buf);
-        return o;
-    }
-    if (r1.sol.size() != r2.sol.size() || std::memcmp(r1.sol.begin(), r2.sol.begin(), sizeof(double) * r1.sol.size()) != 0) {
-        if (cfg.threads <= 2) {
-            o.fail("solution_uninitialised", "the solution depends on uninitialised memory (differs between two memory patterns)");
-            return o;
-        }
-    }
-    const bool supported = !invalidEnum && cfg.pre >= 1 && cfg.post >= 1 && cfg.geometry != 3 && cfg.extrapolation != 2 && cfg.reduction > 0 &&
-                           cfg.reduction <= 1;
-    // (a divergent iteration outside the supported set may overflow: its factor is then inf, still a function of the solve)
-    if (supported && r1.its > 0 && !std::isfinite(r1.rho)) {
-        // a residual that reached exactly zero makes the factor 0 (finite); NaN/inf means undefined
-        o.fail("reduction_factor_not_finite", "meanResidualReductionFactor() is not finite after " + std::to_string(r1.its) + " iterations");
-        return o;
-    }
-    // inside C01's configuration set the solution is finite
-    const bool inC01 = supported;
-    if (inC01 && !r1.finite) {
-        o.fail("solution_not_finite", "solution contains non-finite values for a supported configuration");
-        return o;
-    }
-    // reported factor = (r_final/r_0)^(1/its) for the solve's own residual history when it stopped before the limit
-    if (tolOn && r1.its > 0 && r1.its < cfg.max_its && !invalidEnum && (int)r1.resNorms.size() == r1.its + 1 && r1.resNorms.front() > 0) {
-        const double expect = std::pow(r1.resNorms.back() / r1.resNorms.front(), 1.0 / r1.its);
-        o.cls("factor_checked");
-        if (std::fabs(expect - r1.rho) > 1e-9 * expect + 1e-300) {
-            char buf[200];
-            snprintf(buf, sizeof buf, "mean reduction factor %.12g but (r_final/r_0)^(1/its) = %.12g", r1.rho, expect);
-            o.fail("reduction_factor_value", buf);
-            return o;
-        }
-        // and the history itself is the independently recomputed one (first and last entry)
-        if (inC01 && cfg.problem != 3 && !gridFile && r1.nr * r1.nt <= 40000) {
-            IndepProblem ip(cfg);
-            PolarGrid g(cfg.R0, cfg.Rmax, cfg.nr_exp, cfg.ntheta_exp, cfg.alpha_jump, cfg.aniso, cfg.div);
-            const LD nrm = IndepProblem::norm(ip.stopResidual(g, r1.sol, cfg.extrapolation != 0), cfg.norm);
-            // two evaluations of a residual agree up to the rounding level eps*|| |A||u| || of the operator application
-            RefOp A(g, *ip.geo, *ip.co, ip.dirbc);
-            std::vector<LD> Au, mag;
-            A.apply(r1.sol, Au, mag);
-            const LD floorN = 1e3L * 2.2e-16L * IndepProblem::norm(mag, cfg.norm);
-            if (fabsl(nrm - (LD)r1.resNorms.back()) > 1e-6L * nrm + floorN) {
-                char buf[200];
-                snprintf(buf, sizeof buf, "last residual norm of the solve %.12g, independently recomputed %.12Lg", r1.resNorms.back(), nrm);
-                o.fail("residual_history", buf);
-                return o;
-            }
-            o.cls("residual_recomputed");
-        }
-    }
-    return o;
-}
-
-// ------------------------------------------------------------------------------------------------- CLI part
-static Outcome runCliCase(const KV& c)
-{
-    Outcome o;
-    o.cls("part_cli");
-    std::vector<std::string> args;
-    {
-        std::string s = c.getS("argv"), cur;
-        for (char ch : s) {
-            if (ch == '\x1f') {
-                args.push_back(cur);
-                cur.clear();
-            }
-            else
-                cur += ch;
-        }
-        if (!cur.empty() || s.empty())
-            args.push_back(cur);
-        if (s.empty())
-            args.clear();
-    }
-    const char* root = getenv("VERIF_BUILD_ROOT");
-    const std::string exe = std::string(root ? root : "/verif/build") + "/asan/gmgpolar_cli";
-    std::string errFile   = tmpBase() + "_cli_err.txt";
-    fflush(nullptr);
-    pid_t pid = fork();
-    if (pid == 0) {
-        int fd = open(errFile.c_str(), O_WRONLY | O_CREAT | O_TRUNC, 0600);
-        int nul = open("/dev/null", O_WRONLY);
-        if (fd >= 0)
-            dup2(fd, 2);
-        if (nul >= 0)
-            dup2(nul, 1);
-        std::vector<char*> av;
-        av.push_back(const_cast<char*>(exe.c_str()));
-        for (auto& a : args)
-            av.push_back(const_cast<char*>(a.c_str()));
-        av.push_back(nullptr);
-        setenv("OMP_NUM_THREADS", "2", 1);
-        setenv("ASAN_OPTIONS", "detect_leaks=0:abort_on_error=1", 1);
-        setenv("UBSAN_OPTIONS", "halt_on_error=1:print_stacktrace=1", 1);
-        alarm(120);
-        execv(exe.c_str(), av.data());
-        _exit(127);
-    }
-    int status = 0;
-    waitpid(pid, &status, 0);
-    std::string err;
-    {
-        std::ifstream f(errFile);
-        err.assign((std::istreambuf_iterator<char>(f)), std::istreambuf_iterator<char>());
-        std::remove(errFile.c_str());
-    }
-    o.signature  = "C" + std::to_string(fnv1a(c.getS("argv")));
-    o.nontrivial = !args.empty();
-    std::string shown;
-    for (auto& a : args)
-        shown += a + " ";
-    if (WIFEXITED(status) && WEXITSTATUS(status) == 127) {
-        o.fail("harness_exec", "could not execute " + exe);
-        return o;
-    }
-    if (WIFSIGNALED(status)) {
-        if (WTERMSIG(status) == SIGALRM) {
-            o.inconclusive = true;
-            o.cls("cli_timeout");
-            return o;
-        }
-        const bool uncaught = err.find("terminate called") != std::string::npos;
-        o.fail(uncaught ? "cli_uncaught_exception" : "cli_signal",
-               "gmgpolar " + shown + ": terminated by signal " + std::to_string(WTERMSIG(status)) + (uncaught ? " (uncaught exception: " : " (") +
-                   err.substr(0, 300) + ")");
-        return o;
-    }
-    const int code = WEXITSTATUS(status);
-    if (err.find("Sanitizer") != std::string::npos || err.find("runtime error:") != std::string::npos) {
-        o.fail("cli_sanitizer", "gmgpolar " + shown + ": sanitizer report: " + err.substr(0, 400));
-        return o;
-    }
-    if (code == 0) {
-        o.cls("cli_ran");
-        return o;
-    }
-    o.cls("cli_rejected_status_" + std::to_string(code));
-    if (err.empty()) {
-        o.fail("cli_silent_rejection", "gmgpolar " + shown + ": exit status " + std::to_string(code) + " without a diagnostic on stderr");
-        return o;
-    }
-    return o;
-}
-
-static Outcome runCase(const KV& c)
-{
-    return c.getS("part") == "api" ? runApiCase(c) : runCliCase(c);
-}
-
-static KV genCase()
-{
-    KV c;
-    if (rint(0, 9) < 7) {
-        c.putS("part", "api");
-        SolverCfg s;
-        s.geometry = rweighted({3, 3, 3, 1});
-        s.problem  = s.geometry == 3 ? rint(2, 3) : (rint(0, 9) == 0 ? 3 : rint(0, 2));
-        s.alpha    = (s.geometry == 3 || s.problem == 3) ? 3 : rint(0, 3);
-        s.beta     = (s.geometry == 3 || s.problem == 3) ? 1 : rint(0, 1);
-        genGeometryParams(s);
-        s.R0         = s.Rmax * rpick({1e-8, 1e-5, 1e-3, 0.1});
-        // the smallest grids that still give two levels, and a little above
-        s.nr_exp     = rweighted({1, 2, 6, 3}) + 1; // 1..4
-        s.ntheta_exp = rpick({-1, -1, 2, 3, 4});
-        s.div        = rweighted({6, 2});
-        s.aniso      = rweighted({8, 2, 1, 1});
-        if (rint(0, 5) == 0) // refinement radius anywhere, also outside the domain (command-line default 0)
-            s.alpha_jump = rpick({0.0, -1.0, 0.01, 5.0}) * s.Rmax;
-        s.dirbc         = rbool();
-        s.fmg           = rbool();
-        s.fmg_its       = rint(0, 3);
-        s.fmg_cycle     = rint(0, 29) == 0 ? rpick({-1, 3, 99}) : rint(0, 2);
-        s.extrapolation = rint(0, 29) == 0 ? rpick({-1, 4, 17}) : rint(0, 3);
-        s.max_levels    = rweighted({3, 1}) == 0 ? -1 : rint(0, 7);
-        s.pre           = rint(0, 3);
-        s.post          = rint(0, 3);
-        s.cycle         = rint(0, 29) == 0 ? rpick({-1, 3, 42}) : rint(0, 2);
-        s.max_its       = rweighted({1, 1}) == 0 ? rint(0, 5) : 150;
-        s.norm          = rint(0, 29) == 0 ? rpick({-1, 3}) : rint(0, 2);
-        s.abs_tol       = rpick({-1.0, -1.0, 1e-8, 1e-12});
-        s.rel_tol       = rpick({-1.0, 1e-4, 1e-6, 1e-9});
-        s.threads       = rpick({1, 2, 5});
-        s.reduction     = rpick({1.0, 0.5, 0.3, 0.01});
-        s.strategy      = rint(0, 29) == 0 ? rpick({-1, 2}) : rint(0, 1);
-        s.cache_coef    = rint(0, 7) != 0;
-        s.cache_geom    = rint(0, 7) != 0;
-        s.put(c);
-        c.putI("grid_file", rweighted({8, 1, 1}));
-    }
-    else {
-        c.putS("part", "cli");
-        struct Opt {
-            const char* name;
-            std::vector<std::string> good, bad;
-        };
-        static const std::vector<Opt> opts = {
-            {"--nr_exp", {"2", "3", "4"}, {"0", "-3", "x", "1e3", ""}},
-            {"--ntheta_exp", {"-1", "3", "4"}, {"abc", "0"}},
-            {"--anisotropic_factor", {"0", "1", "2"}, {"-1", "9", "q"}},
-            {"--divideBy2", {"0", "1"}, {"-1", "z"}},
-            {"--R0", {"1e-5", "0.1", "1e-8"}, {"0", "-1", "2.0", "r"}},
-            {"--Rmax", {"1.3", "1.0"}, {"0", "-1"}},
-            {"--DirBC_Interior", {"0", "1"}, {"2", "-1", "yes"}},
-            {"--geometry", {"0", "1", "2", "3"}, {"4", "-1", "7", "circle"}},
-            {"--problem", {"0", "1", "2", "3"}, {"4", "-1"}},
-            {"--alpha_coeff", {"0", "1", "2", "3"}, {"4", "-2"}},
-            {"--beta_coeff", {"0", "1"}, {"2", "-1"}},
-            {"--alpha_jump", {"0.5", "0.66", "0.9"}, {"0", "-1", "5"}},
-            {"--kappa_eps", {"0.3", "0.0"}, {"x"}},
-            {"--delta_e", {"0.2", "1.4"}, {"y"}},
-            {"--FMG", {"0", "1"}, {"2"}},
-            {"--FMG_iterations", {"0", "1", "3"}, {"-1"}},
-            {"--FMG_cycle", {"0", "1", "2"}, {"3", "-1"}},
-            {"--extrapolation", {"0", "1", "2", "3"}, {"4", "-1"}},
-            {"--maxLevels", {"-1", "2", "3"}, {"0", "1", "99"}},
-            {"--preSmoothingSteps", {"1", "2", "0"}, {"-1"}},
-            {"--postSmoothingSteps", {"1", "2", "0"}, {"-1"}},
-            {"--multigridCycle", {"0", "1", "2"}, {"3", "-1"}},
-            {"--maxIterations", {"0", "3", "150"}, {"-1"}},
-            {"--residualNormType", {"0", "1", "2"}, {"3", "-1"}},
-            {"--absoluteTolerance", {"1e-8", "-1"}, {"tol"}},
-            {"--relativeTolerance", {"1e-8", "-1"}, {"tol"}},
-            {"--verbose", {"0", "1"}, {"-1"}},
-            {"--maxOpenMPThreads", {"1", "2"}, {"0", "-1"}},
-            {"--threadReductionFactor", {"1.0", "0.5"}, {"0", "-1", "3"}},
-            {"--stencilDistributionMethod", {"0", "1"}, {"2", "-1"}},
-            {"--cacheDensityProfileCoefficients", {"0", "1"}, {"2"}},
-            {"--cacheDomainGeometry", {"0", "1"}, {"2"}},
-        };
-        std::string argv = "--verbose\x1f" "0\x1f--nr_exp\x1f" + std::string(rpick({"3", "3", "4"}));
-        const int nopt = rint(0, 7);
-        for (int k = 0; k < nopt; k++) {
-            const Opt& op = opts[rint(0, (int)opts.size() - 1)];
-            const int kind = rweighted({10, 3, 1, 1}); // valid value, invalid value, missing value, unknown option
-            if (kind == 0)
-                argv += std::string("\x1f") + op.name + "\x1f" + op.good[rint(0, (int)op.good.size() - 1)];
-            else if (kind == 1)
-                argv += std::string("\x1f") + op.name + "\x1f" + op.bad[rint(0, (int)op.bad.size() - 1)];
-            else if (kind == 2)
-                argv += std::string("\x1f") + op.name;
-            else
-                argv += std::string("\x1f") + rpick({"--bogus", "-Z", "--help", "stray", "--nr_exp=3", "-?"});
-        }
-        c.putS("argv", argv);
-    }
-    return c;
-}
+#include "options_case.h"
 
 int main(int argc, char** argv)
 {
-    return harnessMain(argc, argv, "C20 options", genCase, runCase);
+    return harnessMain(argc, argv, "C20 options", genOptionsCase, runOptionsCase);
 }
